@@ -467,6 +467,17 @@ package eval
 //@ lemma C04 policy_sem_last: forall ns []ast.Node, ms []ast.Node, i int, env Env :: (len(ns) == len(ms) && i >= 0 && i == len(ns) - 1 && resEq(ToEval#0(ms[i].v), ToEval#0(ns[i].v), env)) ==> resEq(ToEval#0(chain(ms, i)), ToEval#0(chain(ns, i)), env)
 //@ lemma C04 policy_sem_step dispatch Evaler.Eval@andEval: forall ns []ast.Node, ms []ast.Node, i int, env Env :: (len(ns) == len(ms) && 0 <= i && i < len(ns) - 1 && resEq(ToEval#0(ms[i].v), ToEval#0(ns[i].v), env) && resEq(ToEval#0(chain(ms, i + 1)), ToEval#0(chain(ns, i + 1)), env)) ==> resEq(ToEval#0(chain(ms, i)), ToEval#0(chain(ns, i)), env)
 
+// `has` during partial evaluation: like the full evaluator's `has`, except that an attribute whose value
+// is the ignore marker makes the test depend on an ignored part. Nothing else does - in particular not
+// an attribute whose value is an unknown: whether the attribute is *present* is known either way (C06).
+//@ func (partialHasEval) Eval
+//@   props C06
+//@   results v, err
+//@   ensures operand_error: evE(n.object, env) != nil ==> err == evE(n.object, env)
+//@   ensures type_error: (evE(n.object, env) == nil && !(evV(n.object, env) is types.EntityUID) && !(evV(n.object, env) is types.Record)) ==> (err != nil && errIs(err, ErrType))
+//@   ensures record: (evE(n.object, env) == nil && (evV(n.object, env) is types.Record) && !isIgn(recGet(evV(n.object, env).(types.Record), n.attribute))) ==> (err == nil && v == types.Boolean(recHas(evV(n.object, env).(types.Record), n.attribute)))
+//@   ensures record_ignored: (evE(n.object, env) == nil && (evV(n.object, env) is types.Record) && isIgn(recGet(evV(n.object, env).(types.Record), n.attribute))) ==> errIs(err, errIgnore)
+
 // ---- generated by /verif/tools/gen_eval_contracts.py (regular part) ----
 
 // The evaluator interface: Eval is a deterministic function of the node and
